@@ -7,7 +7,7 @@ import (
 	"pgregory.net/rapid"
 )
 
-var c17ErrKinds = []string{"err", "perr", "stderr", "serr", "ierr", "errwrap", "errwrapv", "errwrapv", "nilerr", "errstringer", "errfmter", "errsafefmt", "errsafemsg", "byteerr", "sliceerr", "nilsliceerr", "errgostr"}
+var c17ErrKinds = []string{"err", "perr", "stderr", "serr", "ierr", "errwrap", "errwrapv", "errwrapv", "nilerr", "errstringer", "errfmter", "errsafefmt", "errsafemsg", "byteerr", "sliceerr", "nilsliceerr", "errgostr", "sverr"}
 
 func genC17Err(rt *rapid.T, vc *valConfig) *Val {
 	k := c17ErrKinds[rapid.IntRange(0, len(c17ErrKinds)-1).Draw(rt, "ek")]
